@@ -76,6 +76,9 @@ func c15Specs() []c15Spec {
 		{name: "S-J", desc: "2 connections authenticating at the same time, one with the right and one with a wrong password followed by a pipelined Query (no AuthenticationOk, no command for the one that was not accepted)", auth: true,
 			conns: []c15Conn{{"c1", [][]byte{pgproto.Startup("user", "alice", "database", "db-a"), pgproto.Password("pw-alice"), pgproto.Query("whoami")}},
 				{"c2", [][]byte{pgproto.Startup("user", "bob", "database", "db-b"), pgproto.Cat(pgproto.Password("wrong"), pgproto.Query("whoami"))}}}},
+		{name: "S-M", desc: "2 connections logging in to the SAME account at the same time, one with the right and one with a wrong password followed by a pipelined Query (each is judged by its own password)", auth: true,
+			conns: []c15Conn{{"c1", [][]byte{pgproto.Startup("user", "alice", "database", "db-a"), pgproto.Password("pw-alice"), pgproto.Query("whoami")}},
+				{"c2", [][]byte{pgproto.Startup("user", "alice", "database", "db-a"), pgproto.Cat(pgproto.Password("wrong"), pgproto.Query("whoami"))}}}},
 		{name: "S-G", desc: "2 connections authenticating with cleartext passwords as different users (startup packets and password messages interleave)", auth: true,
 			conns: []c15Conn{{"c1", [][]byte{pgproto.Startup("user", "alice", "database", "db-a"), pgproto.Password("pw-alice"), pgproto.Query("whoami")}},
 				{"c2", [][]byte{pgproto.Startup("user", "bob", "database", "db-b"), pgproto.Password("pw-bob"), pgproto.Query("whoami")}}}},
@@ -323,7 +326,7 @@ func init() {
 		for _, sp := range c15Specs() {
 			bound := 2
 			switch {
-			case tier != "thorough" && (sp.name == "S-D" || sp.name == "S-E" || sp.name == "S-J" || sp.name == "S-K" || sp.name == "S-L"):
+			case tier != "thorough" && (sp.name == "S-D" || sp.name == "S-E" || sp.name == "S-J" || sp.name == "S-K" || sp.name == "S-L" || sp.name == "S-M"):
 				continue
 			case tier != "thorough" && sp.name == "S-H":
 				bound = 1
@@ -365,7 +368,7 @@ func init() {
 		}
 		var out []Plan
 		for _, sp := range c15Specs() {
-			if sp.name == "S-G" || sp.name == "S-J" {
+			if sp.name == "S-G" || sp.name == "S-J" || sp.name == "S-M" {
 				sc := c15Scenario(sp)
 				sc.Property = "C01"
 				out = append(out, Plan{Sc: sc, Bound: bound})
@@ -379,6 +382,10 @@ func init() {
 // real blocking, the shims pass straight through. It is a cross-check of the
 // race monitor (a plain free-running -race pass over the same scenario
 // bodies), not a deciding step: its reports are counted separately.
+// c15FreeRunStalled is set when a free run did not finish within its (generous) deadline: the remaining free runs
+// are skipped (the pass is a cross-check only; a connection that is never served is reported by the schedule part).
+var c15FreeRunStalled bool
+
 func c15FreeRun(spec c15Spec) (ok bool) {
 	memnet.Point = nil
 	defer func() { memnet.Point = vsched.Point }()
@@ -439,7 +446,11 @@ func c15FreeRun(spec c15Spec) (ok bool) {
 				all = false
 			}
 		}
-		if all || time.Now().After(deadline) {
+		if all {
+			break
+		}
+		if time.Now().After(deadline) {
+			c15FreeRunStalled = true
 			break
 		}
 		time.Sleep(20 * time.Microsecond)
